@@ -326,3 +326,51 @@ impl ToErrP for err::tcp::HeaderSliceError {
         }
     }
 }
+
+/// the catch-all error, read back through its accessor methods (not by matching on it)
+impl ToErrP for err::FromSliceError {
+    fn errp(&self) -> ErrP {
+        if let Some(e) = self.len() { return e.errp(); }
+        if let Some(e) = self.linux_sll() { return e.errp(); }
+        if let Some(e) = self.macsec() { return e.errp(); }
+        if let Some(e) = self.ip() { return e.errp(); }
+        if let Some(e) = self.ip_auth() { return e.errp(); }
+        if let Some(e) = self.ipv4() { return e.errp(); }
+        if let Some(e) = self.ipv6() { return e.errp(); }
+        if let Some(e) = self.ipv6_exts() { return e.errp(); }
+        if let Some(e) = self.tcp() { return e.errp(); }
+        ErrP::none()
+    }
+}
+
+pub fn same_fault(a: &ErrP, b: &ErrP) -> bool {
+    a.kind == b.kind && a.layer == b.layer && a.req == b.req && a.len == b.len && a.src == b.src && a.off == b.off && a.name == b.name && a.val == b.val
+}
+
+/// converting an error into the catch-all FromSliceError keeps what it says (C07: the report describes the real fault, also after the
+/// conversions the crate offers); exactly one accessor answers
+pub fn conv_keeps<E: ToErrP + Clone + Into<err::FromSliceError>>(e: &E) -> bool {
+    let f: err::FromSliceError = e.clone().into();
+    let s = format!("{} {:?}", f, f);
+    std::hint::black_box(s.len());
+    if let Some(src) = std::error::Error::source(&f) {
+        std::hint::black_box(format!("{} {:?}", src, src).len());
+    }
+    let answers = [f.len().is_some(), f.linux_sll().is_some(), f.macsec().is_some(), f.ip().is_some(), f.ip_auth().is_some(), f.ipv4().is_some(), f.ipv6().is_some(),
+                   f.ipv6_exts().is_some(), f.tcp().is_some()];
+    answers.iter().filter(|x| **x).count() == 1 && same_fault(&f.errp(), &e.errp())
+}
+
+/// add_slice_offset moves a length error by the offset and leaves a content error alone
+#[macro_export]
+macro_rules! shift_keeps {
+    ($e:expr) => {{
+        let p = $crate::errp::ToErrP::errp($e);
+        let q = $crate::errp::ToErrP::errp(&$e.clone().add_slice_offset(7));
+        let mut want = p;
+        if want.kind == "len" {
+            want.off += 7;
+        }
+        $crate::errp::same_fault(&want, &q)
+    }};
+}
